@@ -314,6 +314,9 @@ def refute_equal(a: Lin, b: Lin, seed: int = 0, tries: int = 64) -> Optional[Dic
                 syms[at.sym.name] = _tightest(syms.get(at.sym.name), at.sym)
             elif isinstance(at, (ModA, DivA, FltDivA)):
                 collect(at.lin)
+            elif isinstance(at, OrA):
+                collect(at.x)
+                collect(at.y)
             elif isinstance(at, Fn):
                 fns[at.key] = at
                 for x in at.args:
